@@ -27,8 +27,6 @@ def spec_check_wf(env, anns, obs):
             lo = G.oracle(env, strict_head=False)
             if tuple(lo["unfold"]) == tuple(TS.unfolds(obs)):
                 return "known", "F15"
-        if c == "OK" and TS.F20 in TS.known_ids(PROP) and TS.f20_shaped(env, obs):
-            return "known", "F20"
         return "violation", "verdict %s but the independent checker says %s %s" % (
             c, "well-formed" if o["ok"] else "ill-formed", sorted(o["reasons"]))
     if c == "OK":
